@@ -115,7 +115,7 @@ func runCheck(opts checkOpts) int {
 		fnSet[o.Fn] = true
 	}
 	for _, o := range obls {
-		if (o.Kind == "cover" || o.Kind == "cover-return") && fnSet[o.Fn] {
+		if (o.Kind == "cover" || o.Kind == "cover-return" || o.Kind == "cover-goal") && fnSet[o.Fn] {
 			sel = append(sel, o)
 		}
 	}
@@ -194,8 +194,43 @@ func runCheck(opts checkOpts) int {
 			}
 		}
 	}
+	// clause twins: a clause and its negation both refuted on a path whose plain cover was not
+	{
+		byName := map[string]*Obligation{}
+		pathCover := map[string]*Obligation{}
+		for _, o := range sel {
+			byName[o.Name] = o
+			if o.Kind == "cover-return" {
+				pathCover[o.Fn+"|"+o.Pos] = o
+			}
+		}
+		twins, both := 0, 0
+		var suspects []string
+		for _, o := range sel {
+			if o.Kind != "cover-goal" {
+				continue
+			}
+			twins++
+			orig := byName[o.Twin]
+			if orig == nil || !orig.ok() || orig.Trivial || o.Result.Status != "unsat" {
+				continue
+			}
+			both++
+			if pc := pathCover[o.Fn+"|"+o.Pos]; pc != nil && pc.Result.Status != "unsat" {
+				suspects = append(suspects, baseName(orig.Name))
+			}
+		}
+		if twins > 0 {
+			sort.Strings(suspects)
+			p.twinStats = map[string]interface{}{"ensures_clauses_mirrored": twins, "clause_and_negation_both_refuted": both, "of_these_on_a_path_not_shown_dead": suspects}
+			for _, s := range suspects {
+				fmt.Printf("bipverif: VACUITY: %s and its negation are both refuted on a path that is not shown dead\n", s)
+				toolErr = true
+			}
+		}
+	}
 	for _, o := range sel {
-		if o.Kind == "cover-return" {
+		if o.Kind == "cover-return" || o.Kind == "cover-goal" {
 			continue
 		}
 		if o.Kind == "cover" {
@@ -339,7 +374,7 @@ func solveAllTier(sel []*Obligation, opts checkOpts, work string) {
 	for _, o := range sel {
 		if o.Kind == "cover" {
 			covers = append(covers, o)
-		} else if o.Kind == "cover-return" {
+		} else if o.Kind == "cover-return" || o.Kind == "cover-goal" {
 			rcovers = append(rcovers, o)
 		} else {
 			rest = append(rest, o)
